@@ -781,14 +781,19 @@ var c12People = [][]c12Person{
 var c12LabelPool = []string{"prod", "Good first issue", "bug", "ui/ux", "émoji", "wontfix"}
 
 // labels, title chunks and metadata values made of what is syntax in a query (outside of quotes)
-var c12SpecialLabels = []string{"area::core", "a:b", "prio: high, now", "it's", "say \"hi\"", "-wip", "status:open", ":x:", "label:prod", "a,b"}
+var c12SpecialLabels = []string{"area::core", "a:b", "prio: high, now", "it's", "say \"hi\"", "-wip", "status:open", ":x:", "label:prod", "a,b", "won't fix"}
 var c12TitleWords = []string{"Critical", "crash", "Typo", "in", "string", "Login", "fails", "when", "ÉTÉ", "naïve", "parser", "Timeout", "on", "push", "slow", "render"}
-var c12TitleSpecials = []string{"std::string", "a:b", "::", "it's", "\"quoted\"", "-flag", "status:open", "x,y", "label:prod", ":lead", "trail:", "a:::b", "sort:id", "(paren)", "k=v", "no:label", "-", "O'Neil:"}
+var c12TitleSpecials = []string{"std::string", "a:b", "::", "it's", "\"quoted\"", "-flag", "status:open", "x,y", "label:prod", ":lead", "trail:", "a:::b", "sort:id", "(paren)", "k=v", "no:label", "-", "O'Neil:", "don't", "won't"}
 var c12MetaOrigins = []string{"github", "gitlab", "a::b", "http://x.y/z", "it's, ok", "status:open"}
-var c12MetaTeams = []string{"red", "blue", "-red", "red:blue", "Red \"A\" team"}
+var c12MetaTeams = []string{"red", "blue", "-red", "red:blue", "Red \"A\" team", "O'Neil's crew"}
 
 // a metadata key that needs quotes in a query
 const c12SpecialMetaKey = "ext::id, v2"
+
+// a multi-word metadata key without query syntax in it, and its values
+const c12PlainMetaKey = "build host"
+
+var c12PlainMetaValues = []string{"ci-1", "it's mine", "old rack 7"}
 
 func c12AnyLabel(rng *rand.Rand) string {
 	if rng.Intn(3) == 0 {
@@ -800,6 +805,7 @@ func c12AnyLabel(rng *rand.Rand) string {
 type c12Pop struct {
 	idx     int
 	w       *world.World
+	dir     string // the repository the cache was opened on (the command line runs there)
 	rc      *cache.RepoCache
 	people  map[string]refmodel.QIdentity
 	plist   []refmodel.QIdentity
@@ -953,6 +959,9 @@ func c12BuildPop(seed int64, idx int) (*c12Pop, error) {
 		if rng.Intn(4) == 0 {
 			meta[c12SpecialMetaKey] = []string{"1", "a::b"}[rng.Intn(2)]
 		}
+		if rng.Intn(3) == 0 {
+			meta[c12PlainMetaKey] = c12PlainMetaValues[rng.Intn(len(c12PlainMetaValues))]
+		}
 		b, _, err := bug.Create(rep.Authors[rng.Intn(len(rep.Authors))], w.Now(), p.text(rng, 2+rng.Intn(4)), p.text(rng, 3+rng.Intn(5)), nil, meta)
 		if err != nil {
 			return fail(err)
@@ -1029,6 +1038,7 @@ func c12BuildPop(seed int64, idx int) (*c12Pop, error) {
 	}
 	r0.Cache = rc
 	p.rc = rc
+	p.dir = r0.Dir
 	for k := 0; k < 6; k++ {
 		bc, err := rc.Bugs().Resolve(ids[rng.Intn(len(ids))])
 		if err != nil {
@@ -1101,6 +1111,19 @@ func c12BuildPop(seed int64, idx int) (*c12Pop, error) {
 }
 
 func (p *c12Pop) close() { p.w.Close() }
+
+// closeCache closes the cache (and with it the repository handle) of the population and releases the lock: the
+// repository stays on disk for another process.
+func (p *c12Pop) closeCache() error {
+	if p.rc == nil {
+		return nil
+	}
+	err := p.rc.Close()
+	p.rc = nil
+	r0 := p.w.Replicas[0]
+	r0.Cache, r0.Repo = nil, nil
+	return err
+}
 
 // generic replaces the population's markers by letters.
 func (p *c12Pop) generic(term string) string {
@@ -1262,6 +1285,8 @@ func (p *c12Pop) randomQuery1(rng *rand.Rand) []refmodel.QToken {
 			switch {
 			case pct(12):
 				return refmodel.QToken{Kind: "metadata", Key: c12SpecialMetaKey, Value: []string{"1", "a::b", "a:b"}[rng.Intn(3)]}
+			case pct(10):
+				return refmodel.QToken{Kind: "metadata", Key: c12PlainMetaKey, Value: append([]string{"ci", "it's"}, c12PlainMetaValues...)[rng.Intn(2+len(c12PlainMetaValues))]}
 			case pct(5):
 				// nearly the key
 				return refmodel.QToken{Kind: "metadata", Key: []string{"ext", "ext::id", "ext::id, v2 ", "id, v2"}[rng.Intn(4)], Value: "1"}
@@ -1354,6 +1379,37 @@ func c12QuerySafe(rc *cache.RepoCache, q *query.Query) (ids []entity.Id, err err
 	return
 }
 
+// expectSets: the bugs a query must return (filters and every search term) and may return (filters and some
+// search term). With a multi-word or punctuated full-text term (phrase) nothing is asserted about what the term
+// finds: any subset of the bugs satisfying the filters is accepted.
+func (p *c12Pop) expectSets(e refmodel.QExpect, phrase bool) (must, may map[string]bool) {
+	must, may = map[string]bool{}, map[string]bool{}
+	for _, b := range p.bugs {
+		if !e.FiltersMatch(b, p.people) {
+			continue
+		}
+		if phrase {
+			may[b.Id] = true
+			continue
+		}
+		all, some := true, len(e.Search) == 0
+		for _, t := range e.Search {
+			if refmodel.SearchHit(b, t) {
+				some = true
+			} else {
+				all = false
+			}
+		}
+		if all {
+			must[b.Id] = true
+		}
+		if some {
+			may[b.Id] = true
+		}
+	}
+	return
+}
+
 // evalOne runs one query against the population and judges the answer.
 func (p *c12Pop) evalOne(r obsSink, toks []refmodel.QToken, verbose bool) {
 	text, err := refmodel.RenderQuery(toks)
@@ -1426,31 +1482,7 @@ func (p *c12Pop) evalOne(r obsSink, toks []refmodel.QToken, verbose bool) {
 	}
 
 	// expectation: must = filters and every search term; may = filters and some search term
-	must, may := map[string]bool{}, map[string]bool{}
-	for _, b := range p.bugs {
-		if !e.FiltersMatch(b, p.people) {
-			continue
-		}
-		if phrase {
-			// semantics of multi-word terms not asserted: any subset of the bugs satisfying the filters is accepted
-			may[b.Id] = true
-			continue
-		}
-		all, some := true, len(e.Search) == 0
-		for _, t := range e.Search {
-			if refmodel.SearchHit(b, t) {
-				some = true
-			} else {
-				all = false
-			}
-		}
-		if all {
-			must[b.Id] = true
-		}
-		if some {
-			may[b.Id] = true
-		}
-	}
+	must, may := p.expectSets(e, phrase)
 	kinds := kindsOf
 	if kinds == "" {
 		kinds = "none"
@@ -1642,6 +1674,16 @@ type c12PopCase struct {
 	Queries int               `json:"queries"`
 	Only    []refmodel.QToken `json:"only,omitempty"` // replay: evaluate just this query
 	OnlySet bool              `json:"only_set,omitempty"`
+	// the command line as a client (c12_cli.go): the fixed battery, how many of the evaluated queries with an
+	// argument that is more than a bare word / with bare words only, and how many queries are also run in the
+	// argument forms that are recorded but not judged
+	CliBattery  bool   `json:"cli_battery,omitempty"`
+	CliSpecial  int    `json:"cli_special,omitempty"`
+	CliPlain    int    `json:"cli_plain,omitempty"`
+	CliProbes   int    `json:"cli_probes,omitempty"`
+	CliStride   int    `json:"cli_stride,omitempty"` // battery item i runs in population k when (i+k)%stride == 0
+	OnlyCli     string `json:"only_cli,omitempty"`   // replay: run Only through the binary; "flags" = the sort as flags
+	OnlyCliForm string `json:"only_cli_form,omitempty"`
 }
 
 func c12RunPop(r obsSink, pc c12PopCase) {
@@ -1674,6 +1716,14 @@ func c12RunPop(r obsSink, pc c12PopCase) {
 		}
 	}
 	if pc.OnlySet {
+		if pc.OnlyCli != "" {
+			if err := p.closeCache(); err != nil {
+				r.Inconclusive("C12 cli: the cache of the population could not be closed: " + err.Error())
+				return
+			}
+			p.cliOne(r, pc.Only, pc.OnlyCliForm, pc.OnlyCli == "flags", true)
+			return
+		}
 		p.evalOne(r, pc.Only, true)
 		return
 	}
@@ -1710,6 +1760,9 @@ func c12RunPop(r obsSink, pc c12PopCase) {
 		for _, v := range []string{"1", "a::b", "a:b"} {
 			battery = append(battery, []refmodel.QToken{{Kind: "metadata", Key: c12SpecialMetaKey, Value: v, SQ: sq}})
 		}
+		for _, v := range c12PlainMetaValues {
+			battery = append(battery, []refmodel.QToken{{Kind: "metadata", Key: c12PlainMetaKey, Value: v, SQ: sq}})
+		}
 		for _, pe := range p.plist {
 			for _, d := range []string{pe.Name, pe.Login} {
 				if refmodel.Expressible(d) && refmodel.QValueFeature(d) != "plain" && refmodel.QValueFeature(d) != "space" {
@@ -1743,6 +1796,8 @@ func c12RunPop(r obsSink, pc c12PopCase) {
 		text, _ := refmodel.RenderQuery(p.randomQuery(rng))
 		r.Sample(map[string]any{"population": 0, "bugs": len(p.bugs), "first_query": text, "markers": map[string]any{"rare": p.rare, "common": p.common, "hits": p.hitsPer}})
 	}
+	// last: the same repository through the command line (closes the cache)
+	p.runCLI(r, pc)
 }
 
 // c12Eval runs every population in a child process: the cache build runs in goroutines started by
@@ -1752,9 +1807,13 @@ func c12Eval(r *mon.Run) {
 	nQ := r.Pick(200, 10_000)
 	cases := make([]c12PopCase, nPop)
 	for k := range cases {
-		cases[k] = c12PopCase{Seed: r.Seed, Idx: k, Queries: nQ}
+		cases[k] = c12PopCase{Seed: r.Seed, Idx: k, Queries: nQ, CliBattery: true, CliStride: r.Pick(2, 1), CliSpecial: r.Pick(40, 150), CliPlain: r.Pick(10, 30)}
+		if k%4 == 0 {
+			cases[k].CliProbes = r.Pick(12, 40)
+		}
 	}
 	outcomes := runBatches[c12PopCase, *obsRecord]("", "c12pop", cases, 1, 20*time.Minute, nil)
+	cliJudged, cliSelective := 0, map[string]bool{}
 	for k, oc := range outcomes {
 		switch {
 		case oc.Crashed:
@@ -1763,7 +1822,22 @@ func c12Eval(r *mon.Run) {
 		case oc.TimedOut || oc.Result == nil || *oc.Result == nil:
 			r.Inconclusive(fmt.Sprintf("population %d did not finish: %s", k, oc.Site))
 		default:
-			(*oc.Result).replayInto(r)
+			rec := *oc.Result
+			cliJudged += rec.Counts["cli_queries_judged"]
+			for _, c := range rec.Sets["cli_argument_classes_in_queries_selecting_some_bugs"] {
+				cliSelective[c] = true
+			}
+			rec.replayInto(r)
+		}
+	}
+	// the command line must have been observed: enough judged answers, and every kind of delivery in a query that
+	// selects some bugs but not all
+	if cliJudged < 50*nPop {
+		r.Inconclusive(fmt.Sprintf("C12 cli: only %d answers of the command line were judged (%d populations)", cliJudged, nPop))
+	}
+	for _, c := range []string{"bare/plain", "multi-word/plain", "multi-word/apostrophe", "quoted-word/colon", "quoted-word/other-quote"} {
+		if !cliSelective[c] {
+			r.Inconclusive("C12 cli: no judged query that selects some bugs had an argument of class " + c)
 		}
 	}
 }
@@ -1777,6 +1851,8 @@ func runC12(tier, replay string) int {
 				Input      *string           `json:"input"`
 				Population *int              `json:"population"`
 				Tokens     []refmodel.QToken `json:"tokens"`
+				CliForm    string            `json:"cli_form"`
+				SortVia    string            `json:"sort_via"`
 			} `json:"case"`
 		}
 		data, err := os.ReadFile(replay)
@@ -1792,7 +1868,14 @@ func runC12(tier, replay string) int {
 			if rep.Seed != nil {
 				seed = *rep.Seed
 			}
-			c12RunPop(r, c12PopCase{Seed: seed, Idx: *rep.Case.Population, Only: rep.Case.Tokens, OnlySet: true})
+			pc := c12PopCase{Seed: seed, Idx: *rep.Case.Population, Only: rep.Case.Tokens, OnlySet: true}
+			if rep.Case.CliForm != "" {
+				pc.OnlyCli, pc.OnlyCliForm = "qualifier", rep.Case.CliForm
+				if rep.Case.SortVia == "flags" {
+					pc.OnlyCli = "flags"
+				}
+			}
+			c12RunPop(r, pc)
 		} else if rep.Case.Input != nil {
 			q, err, p := c12ParseSafe(*rep.Case.Input)
 			fmt.Printf("Parse(%q): query=%s err=%v panic=%v\n", *rep.Case.Input, c12DescribeQuery(q), err, p)
@@ -1833,7 +1916,7 @@ func runC12(tier, replay string) int {
 	r.Extra("forms_outside_the_documented_language(not judged)", beyond)
 	r.Extra("fuzz_alphabet", "\" ' : space tab , - a-z A-Z é ß 中 (plus qualifier words in one of four mixes; the fourth is grammar-shaped: tokens of 1..4 parts, parts bare or quoted with content from the whole alphabet, now and then damaged)")
 
-	return r.Finish("(a) seeded random strings through query.Parse under recover, shape = which of {double quote, single quote, colon, whitespace, non-ASCII} occur x length class x accepted/rejected; each string is also read by the reference reader of the documented grammar (refmodel/querylex.go, three-valued): well-formed => must be accepted with that meaning, malformed => must be rejected, otherwise not judged; (b) structured queries rendered per doc/queries.md and re-parsed, shape = qualifier kinds x sort x quote styles x non-ASCII x most syntax-like feature of the values; values include what is syntax outside of quotes (':', runs of ':', leading/trailing ':', qualifier names, the other quote character, white space at the edges, ',', '-' and other operator characters), in both quote styles, for every free-valued qualifier, metadata keys and values and free-text terms: a fixed battery of every listed value x every position, then random queries; malformed inputs per class, alone and inside valid context, also next to such quoted values; (c) populations of 10..40 bugs from two replicas opened through RepoCache, whose titles, labels, creation metadata and author names contain the same sequences; generated queries evaluated by RepoCache.Bugs().Query and by the reference evaluator, shape = qualifier kinds x sort x result-size class x syntax feature; a query case is non-trivial when it has a filter or search term and a non-empty expected result, or a sort and >= 2 expected results",
+	return r.Finish("(a) seeded random strings through query.Parse under recover, shape = which of {double quote, single quote, colon, whitespace, non-ASCII} occur x length class x accepted/rejected; each string is also read by the reference reader of the documented grammar (refmodel/querylex.go, three-valued): well-formed => must be accepted with that meaning, malformed => must be rejected, otherwise not judged; (b) structured queries rendered per doc/queries.md and re-parsed, shape = qualifier kinds x sort x quote styles x non-ASCII x most syntax-like feature of the values; values include what is syntax outside of quotes (':', runs of ':', leading/trailing ':', qualifier names, the other quote character, white space at the edges, ',', '-' and other operator characters), in both quote styles, for every free-valued qualifier, metadata keys and values and free-text terms: a fixed battery of every listed value x every position, then random queries; malformed inputs per class, alone and inside valid context, also next to such quoted values; (c) populations of 10..40 bugs from two replicas opened through RepoCache, whose titles, labels, creation metadata and author names contain the same sequences; generated queries evaluated by RepoCache.Bugs().Query and by the reference evaluator, shape = qualifier kinds x sort x result-size class x syntax feature; a query case is non-trivial when it has a filter or search term and a non-empty expected result, or a sort and >= 2 expected results; (d) the command line as a client of the same populations (cache closed, repository unlocked): `git-bug bug --format id <arguments>` run from the binary of the tree under test with the arguments a POSIX shell delivers when the documented query text is typed after `git bug` (one argument per token: bare words as they are, multi-word values with their quotes removed by the shell, values without white space that need quotes with their quotes), the sort as a qualifier or as --by/--direction in turn: a fixed battery per population (every qualifier x every argument class, alone and between other arguments) and a sample of the queries of (c), those with an argument that is more than a bare word first; the printed id list is judged like the answer of the library (set, duplicates, order); rejection, crash or anything but ids on stdout is a violation; shape = qualifier kinds x sort (and how it travels) x result-size class x most demanding argument class",
 		r.Pick(800, 5000), []string{
 			"documented language = doc/queries.md plus metadata:key:value; a value is a bare word (no white space, ':' or quote character) or a quoted string; between the quotes every character other than the enclosing quote is data (no escape mechanism); qualifiers in lower case",
 			"the documentation names double quotes only; single quotes are exercised the same way in the structured part (b)/(c) (keys of such findings say single-quoted), but on random strings (a) a text containing ' is judged only where reading ' as a quote and as an ordinary character agree",
@@ -1844,5 +1927,6 @@ func runC12(tier, replay string) int {
 			"full-text terms are planted marker tokens [a-z]{2}[0-9]{2}[a-z]{2}; a bug matches when a title/comment contains the token as a word; with several terms anything between all-terms and any-term is accepted; for multi-word and punctuated terms nothing is asserted about what they find (any subset of the bugs satisfying the filters), only that the query can be evaluated, repeatably",
 			"metadata queries use only keys set on the create operation itself; labels in the populations have no case variants; labels and metadata values are compared exactly, titles and names by case-insensitive containment",
 			"reference data: from-scratch bug.Read+Compile of every bug, Lamport times from the independent gitraw reader",
+			"command line: only the usage of the examples of doc/md/git-bug_bug.md is judged (one argument per token of the documented query text). A multi-word value is judged when it holds no ':' (without its quotes nothing tells it from a sub-qualifier), no '\"' (the documented double quotes cannot express it) and no white space other than U+0020; a value without white space that needs quotes travels with its quotes. Not judged, recorded for a sub-sample under cli_not_judged(...): the whole query as one argument, a multi-word token with its quotes kept, a quoted word with its quotes removed (title:it's), multi-word values with ':' / '\"' / tabs. '--' precedes the query arguments when one starts with '-' or the first is the name of a sub-command of `git-bug bug`. No sort qualifier and no sort flag: the order is not checked",
 		})
 }
